@@ -434,4 +434,112 @@ def openBoth (bs : Bytes) (sch : Nat → Nat) : Option (List Bytes × List Bytes
     some (a.files.map (·.fileNameRaw), b.files.map (·.fileNameRaw), (d.calls, d.pos), (sd.calls, sd.pos))
   | _, _ => none
 
+/-! ### Writer side: `write_all` absorbs short writes of the sink -/
+
+theorem drop_len_add {L R : Bytes} {n k : Nat} (h : L.length = n) : (L ++ R).drop (n + k) = R.drop k := by
+  subst h
+  rw [List.drop_append]
+  simp
+
+theorem take_len {L R : Bytes} {n : Nat} (h : L.length = n) : (L ++ R).take n = L := by
+  subst h; simp
+
+theorem writeAt_split (buf : Bytes) (p : Nat) (a b : Bytes) :
+    writeAt (writeAt buf p a) (p + a.length) b = writeAt buf p (a ++ b) := by
+  unfold writeAt
+  by_cases hp : p ≤ buf.length
+  · rw [if_pos hp, if_pos hp]
+    have hL : (buf.take p ++ a).length = p + a.length := by
+      rw [List.length_append, List.length_take]; omega
+    rw [if_pos (by rw [List.length_append, hL]; omega)]
+    rw [take_len hL, drop_len_add hL, List.drop_drop, List.length_append]
+    simp only [List.append_assoc]
+    rw [Nat.add_assoc]
+  · rw [if_neg hp, if_neg hp]
+    have hL : (buf ++ List.replicate (p - buf.length) 0 ++ a).length = p + a.length := by
+      simp only [List.length_append, List.length_replicate]; omega
+    rw [if_pos (by rw [hL]; omega)]
+    have : (buf ++ List.replicate (p - buf.length) 0 ++ a) = (buf ++ List.replicate (p - buf.length) 0 ++ a) ++ [] := by simp
+    rw [this, take_len hL, drop_len_add hL]
+    simp
+
+/-- **`write_all` absorbs short writes**: the retry loop over the short-writing device leaves exactly
+the buffer and position that the single whole write of the writer model's `M.writeAll` leaves. -/
+theorem short_writeAllAux (sch : Nat → Nat) : ∀ (fuel : Nat) (d : Dev) (bs : Bytes), bs.length ≤ fuel →
+    ∃ d', writeAllAux (shortWr sch) fuel d bs = (.ok (), d') ∧
+      d'.buf = (if bs = [] then d.buf else writeAt d.buf d.pos bs) ∧ d'.pos = d.pos + bs.length := by
+  intro fuel
+  induction fuel with
+  | zero =>
+    intro d bs h
+    have : bs = [] := List.eq_nil_of_length_eq_zero (by omega)
+    subst this
+    exact ⟨d, rfl, rfl, rfl⟩
+  | succ fuel ih =>
+    intro d bs h
+    cases bs with
+    | nil => exact ⟨d, rfl, rfl, rfl⟩
+    | cons x xs =>
+      generalize hk : min (x :: xs).length (max (sch d.calls) 1) = k
+      have hk1 : 1 ≤ k ∧ k ≤ (x :: xs).length := by
+        simp only [List.length_cons] at hk ⊢; omega
+      have hwr : (shortWr sch).wr d (x :: xs) = (.ok k,
+          { buf := writeAt d.buf d.pos ((x :: xs).take k), pos := d.pos + k, calls := d.calls + 1 }) := by
+        simp only [shortWr, reduceCtorEq, if_false, hk]
+      obtain ⟨d2, hv, hb2, hp2⟩ := ih
+        { buf := writeAt d.buf d.pos ((x :: xs).take k), pos := d.pos + k, calls := d.calls + 1 }
+        ((x :: xs).drop k) (by rw [List.length_drop]; simp only [List.length_cons] at h hk1 ⊢; omega)
+      simp only at hb2 hp2
+      refine ⟨d2, ?_, ?_, ?_⟩
+      · obtain ⟨k', rfl⟩ : ∃ k', k = k' + 1 := ⟨k - 1, by omega⟩
+        simp only [writeAllAux, hwr, hk1.2, if_true]
+        exact hv
+      · rw [if_neg (List.cons_ne_nil x xs), hb2]
+        have hlen : ((x :: xs).take k).length = k := by rw [List.length_take]; omega
+        split
+        · rename_i hnil
+          have h2 := List.take_append_drop k (x :: xs)
+          rw [hnil, List.append_nil] at h2
+          rw [h2]
+        · have := writeAt_split d.buf d.pos ((x :: xs).take k) ((x :: xs).drop k)
+          rw [hlen, List.take_append_drop] at this
+          exact this
+      · rw [hp2, List.length_drop]; omega
+
+
+/-- `M.writeAll` fault-free, as a function of the device. -/
+theorem M_writeAll_spec (bs : Bytes) (d : Dev) :
+    ∃ d', M.writeAll bs none d = (.ok (), d') ∧
+      d'.buf = (if bs = [] then d.buf else writeAt d.buf d.pos bs) ∧ d'.pos = d.pos + bs.length := by
+  cases bs with
+  | nil => exact ⟨d, rfl, rfl, rfl⟩
+  | cons x xs => exact ⟨_, rfl, rfl, rfl⟩
+
+/-- One `write_all`: the retry loop over a sink with ANY short-write schedule and the writer model's
+whole write end on the same bytes at the same position. -/
+theorem short_writeAll_sim (sch : Nat → Nat) (bs : Bytes) (d sd : Dev) (hv : SameView d sd) :
+    ∃ d' sd', M.writeAll bs none d = (.ok (), d') ∧
+      Layers.writeAll (shortWr sch) sd bs = (.ok (), sd') ∧ SameView d' sd' := by
+  obtain ⟨d1, e1, hb1, hp1⟩ := M_writeAll_spec bs d
+  obtain ⟨sd1, e2, hb2, hp2⟩ := short_writeAllAux sch bs.length sd bs (Nat.le_refl _)
+  refine ⟨d1, sd1, e1, e2, ?_, ?_⟩
+  · rw [hb2, hb1, hv.1, hv.2]
+  · rw [hp2, hp1, hv.2]
+
+/-- A sequence of `write_all`s (how every header, the central directory and the end records are
+written: `M.writeChunks`). -/
+theorem short_writeChunks_sim (sch : Nat → Nat) : ∀ (cs : List Bytes) (d sd : Dev), SameView d sd →
+    ∃ d' sd', M.writeChunks cs none d = (.ok (), d') ∧
+      Layers.writeAllSeq (shortWr sch) sd cs = (.ok (), sd') ∧ SameView d' sd'
+  | [], d, sd, hv => ⟨d, sd, rfl, rfl, hv⟩
+  | c :: cs, d, sd, hv => by
+    obtain ⟨d1, sd1, e1, e2, hv1⟩ := short_writeAll_sim sch c d sd hv
+    obtain ⟨d2, sd2, f1, f2, hv2⟩ := short_writeChunks_sim sch cs d1 sd1 hv1
+    refine ⟨d2, sd2, ?_, ?_, hv2⟩
+    · unfold M.writeChunks
+      rw [M.bind_of_ok e1]
+      exact f1
+    · simp only [Layers.writeAllSeq, e2]
+      exact f2
+
 end ZipVerif.Model
